@@ -15,7 +15,7 @@
 (* Every state is exported (verdict vector or error bags over the fixed    *)
 (* instance list) and replayed into the real validator classes.            *)
 (***************************************************************************)
-EXTENDS SchemaUniverse, TLC, Json
+EXTENDS SchemaUniverse, Locate, TLC, Json
 
 CONSTANTS D,          \* draft: 3, 4, 6, 7
           Mode,       \* "families": keywords of one interacting family combine freely (any order);
@@ -25,7 +25,9 @@ CONSTANTS D,          \* draft: 3, 4, 6, 7
           Wraps,      \* TRUE: Wrap steps
           WrapMax,    \* Wrap applies to schemas with at most this many keywords
           ExportMode, \* "none" | "verdict" | "errors"
-          WithAcc     \* TRUE: export whether the draft's metaschema accepts the schema (C11)
+          WithAcc,    \* TRUE: export whether the draft's metaschema accepts the schema (C11)
+          ForeignVals,\* values given to foreign keywords
+          ForeignBase \* AddForeign applies to {} and to single-keyword schemas whose keyword is in this set
 
 VARIABLES schema, wrapped, nforeign
 vars == <<schema, wrapped, nforeign>>
@@ -58,7 +60,7 @@ Foreign(d) ==
   \ ( Keywords(d) \cup {IdKw(d)} \cup {K_required}
       \cup (IF d = 7 THEN {K_then, K_else} ELSE {})
       \cup (IF d <= 4 THEN {K_exclusiveMinimum, K_exclusiveMaximum} ELSE {}) )
-ForeignVals == { JNull, JTrue, N1, Str(S_a), Arr(<<>>), Arr(<<Str(S_a)>>), EmptyObj, TInt, Obj1(S_a, Arr(<<Str(S_b)>>)) }
+ForeignValsAll == { JNull, JTrue, N1, Str(S_a), Arr(<<>>), Arr(<<Str(S_a)>>), EmptyObj, TInt, Obj1(S_a, Arr(<<Str(S_b)>>)) }
 
 \* ---- wrappers ----
 WrapKinds(d) == {"items", "itemsArr", "properties", "patternProperties", "additionalProperties", "dependencies"}
@@ -85,11 +87,16 @@ WrapIn(d, w, S) ==
     [] w = "then" -> Obj2(K_if, TInt, K_then, S)
     [] w = "else" -> Obj2(K_if, TInt, K_else, S)
 
+ForeignBaseQuick == {K_type, K_properties, K_additionalProperties, K_items, K_required, K_minimum, K_enum}
+ForeignBaseAll == AllNamed
+ForeignValsQuick == { JTrue, TInt, Str(S_a) }
+
 Init == schema = EmptyObj /\ wrapped = FALSE /\ nforeign = 0
 
 AddKeyword(k, v) == /\ ~wrapped /\ nforeign = 0 /\ Allowed(schema, k)
                     /\ schema' = AddMember(schema, k, v) /\ UNCHANGED <<wrapped, nforeign>>
 AddForeign(k, v) == /\ Foreigns /\ ~wrapped /\ nforeign = 0 /\ k \notin KeysOf(schema)
+                    /\ (schema.k = <<>> \/ (Len(schema.k) = 1 /\ schema.k[1] \in ForeignBase))
                     /\ schema' = AddMember(schema, k, v) /\ nforeign' = 1 /\ UNCHANGED wrapped
 Wrap(w) == /\ Wraps /\ ~wrapped /\ nforeign = 0 /\ schema.k # <<>> /\ Len(schema.k) <= WrapMax
            /\ schema' = WrapIn(D, w, schema) /\ wrapped' = TRUE /\ UNCHANGED nforeign
@@ -103,21 +110,11 @@ Spec == Init /\ [][Next]_vars
 Errs(S, I) == Run(D, UEnv(S), S, I)
 NI == Len(Instances)
 
-\* the members of S named k or consulted by k, in their original order
-Restr(S, k) ==
-  LET keep == SelectSeq([i \in DOMAIN S.k |-> i], LAMBDA i : S.k[i] = k \/ S.k[i] \in Consults(D, k)) IN
-  JObj([j \in DOMAIN keep |-> S.k[keep[j]]], [j \in DOMAIN keep |-> S.v[keep[j]]])
-\* the keyword an error is attributed to: first element of its schema path (then/else count as if)
-Attr(e) == IF e.sp = <<>> THEN <<>>
-           ELSE LET h == e.sp[1].s IN IF h \in {K_then, K_else} THEN K_if ELSE h
-OfKw(es, k) == SelectSeq(es, LAMBDA e : Attr(e) = k)
-Active(S) == { S.k[i] : i \in { i \in DOMAIN S.k : S.k[i] \in Keywords(D) } }
-
 \* C05, static form
 UnionLaw(S, I) ==
   LET whole == Errs(S, I).errs IN
-  /\ \A k \in Active(S) : SameBag(OfKw(whole, k), OfKw(Errs(Restr(S, k), I).errs, k))
-  /\ \A j \in DOMAIN whole : Attr(whole[j]) \in Active(S)
+  /\ \A k \in Active(D, S) : SameBag(OfKw(whole, k), OfKw(Errs(Restr(D, S, k), I).errs, k))
+  /\ \A j \in DOMAIN whole : Attr(whole[j]) \in Active(D, S)
 C05Static == \A i \in 1 .. NI : UnionLaw(schema, Instances[i])
 
 \* C05, incremental form: a new keyword that nobody present consults, and that consults nobody present,
@@ -136,6 +133,20 @@ C05Step == [][ (IsAddStep /\ nforeign' = 0
 C10Step == [][ (IsAddStep /\ nforeign' = 1)
                => \A i \in 1 .. NI : LET a == Errs(schema, Instances[i])  b == Errs(schema', Instances[i]) IN
                                        SameBag(a.errs, b.errs) /\ a.exc = b.exc /\ a.ood = b.ood ]_vars
+
+\* C06 on the specification itself: every error the semantics yields locates itself (schema path walks to the
+\* keyword's value through reference hops, instance path walks into the instance) -- tags mark the exceptions
+RECURSIVE SpecLocated(_, _, _, _, _)
+SpecLocated(S, I, es, paip, pasp) ==
+  \A j \in DOMAIN es :
+    LET e == es[j]  aip == paip \o e.ip  asp == pasp \o e.sp
+        nav == Nav(D, UEnv(S), S, asp, 1, FALSE)
+    IN  /\ nav.ok
+        /\ (e.kw = <<>> => nav.v = JFalse)
+        /\ (e.kw # <<>> => asp[Len(asp)].s = e.kw)
+        /\ (e.tag = "" /\ ~nav.pn => At(I, aip, 1).ok)
+        /\ SpecLocated(S, I, e.ctx, aip, asp)
+C06Spec == \A i \in 1 .. NI : SpecLocated(schema, Instances[i], Errs(schema, Instances[i]).errs, <<>>, <<>>)
 
 \* sanity of the oracle itself
 EmptyAccepts == schema = EmptyObj => \A i \in 1 .. NI : IsValidR(Errs(schema, Instances[i]))
